@@ -2,6 +2,7 @@
 """print the prompt given to a mutation sub-agent for property <id> (only the property text + its worktree)"""
 import json, sys
 pid = sys.argv[1]; wt = sys.argv[2]; nmut = sys.argv[3] if len(sys.argv) > 3 else "2"
+hint = sys.argv[4] if len(sys.argv) > 4 else ""
 for l in open('/verif/properties.jsonl'):
     p = json.loads(l)
     if p['id'] == pid: break
@@ -18,10 +19,10 @@ Relevant files: {', '.join(p['anchors']['files'])}
 Your task: produce {nmut} DIFFERENT, independent source changes ("mutations") to the library (files under {wt}/gpytorch only) such that each one
  (a) BREAKS the property above (a real semantic bug a developer could plausibly introduce: wrong index/offset/transposition, dropped or doubled term, a stale cache that is not invalidated, wrong broadcast, wrong branch condition, state not restored, etc.);
  (b) still imports/compiles, and the EXISTING test suite still passes with it. Run it with:
-       cd {wt} && OMP_NUM_THREADS=1 MKL_NUM_THREADS=1 PYTHONPATH={wt} /venv/bin/python -m pytest -q -p no:cacheprovider -x -n 8 test/ 2>&1 | tail -15
+       cd {wt} && OMP_NUM_THREADS=1 MKL_NUM_THREADS=1 PYTHONPATH={wt} /venv/bin/python -m pytest -q -p no:cacheprovider -x -n 6 test/ 2>&1 | tail -15
      (about 2-4 minutes with OMP_NUM_THREADS=1 as given - keep it, the machine is shared; 8 tests in test/lazy/test_lazy_evaluated_kernel_tensor.py::*::test_pickle and test/kernels/test_spectral_mixture_kernel.py fail on the pristine tree already and may be deselected; first confirm `PYTHONPATH={wt} /venv/bin/python -c "import gpytorch; print(gpytorch.__file__)"` prints a path under {wt}). The test test/examples/test_spectral_mixture_gp_regression.py::TestSpectralMixtureGPRegression::test_spectral_mixture_gp_mean_abs_error is known-flaky on the unmodified tree and may be ignored (deselect it with --deselect). All other tests that pass without your change must pass with it;
  (c) needs something SPECIFIC to manifest — an unusual input (e.g. n1 != n2, a slice with non-zero start, a particular batch/broadcast shape, coincident points), a particular settings combination, a multi-step sequence of operations (e.g. predict, then change something, then predict again), or two cooperating sites that each look fine alone — NOT something ordinary use exposes at once (that is also why the existing tests do not catch it). Subtle numerical-formula errors that the tests' loose tolerances miss are also good.
-Make the mutations different in kind from each other (different files/mechanisms where possible). Keep each one small (a few lines).
+Make the mutations different in kind from each other (different files/mechanisms where possible). Keep each one small (a few lines). {hint}
 
 For each mutation i (1..{nmut}) deliver, in the directory {wt}/_mut/m<i>/:
   - patch.diff : `git diff` of ONLY that mutation against the pristine HEAD (so that `git apply patch.diff` on a clean checkout reproduces it);
